@@ -1452,6 +1452,10 @@ func (r *Runtime) RunProgram(p *Program) (result Value, err error) {
 					r.leaveAbrupt()
 				}
 			} else {
+				// a foreign Go panic unwinds like an uncatchable exception: leave no execution state behind
+				if len(vm.callStack) == 0 {
+					r.leaveAbrupt()
+				}
 				panic(x)
 			}
 		}
@@ -2517,6 +2521,10 @@ func (r *Runtime) runWrapped(f func()) (err error) {
 					r.leaveAbrupt()
 				}
 			} else {
+				// a foreign Go panic unwinds like an uncatchable exception: leave no execution state behind
+				if len(r.vm.callStack) == 0 {
+					r.leaveAbrupt()
+				}
 				panic(x)
 			}
 		}
